@@ -6,6 +6,7 @@ _s = load_unit('stream')
 NAME = 'cookie'
 TUS = [('src/common/stream.cc', 'Pistache'), ('src/common/cookie.cc', 'Pistache')]
 PRELUDE = _s.PRELUDE + r'''
+int vs_errno;      /* errno (the libc scanners set it; not used on the unchanged tree) */
 #include <stdlib.h>
 #include "vs_http.h"
 int vs_exc_code; size_t vs_budget, g_app_total, g_app_calls; const char *g_app_src;
@@ -52,6 +53,9 @@ TYPES.update({'std::pair<std::string, std::string>': 'struct vs_spair', 'std::st
               'std::optional<Pistache::Http::FullDate>': 'struct vs_opt_date', 'std::optional<FullDate>': 'struct vs_opt_date'})
 STUBS = dict(_s.STUBS)
 STUBS.update({
+    # not used on the unchanged tree: a rewrite of a matcher with the libc scanners is decided against their contract (a byte that stops
+    # the scan must exist inside the object: an unterminated (ptr,len) token does not provide one)
+    'strtol': 'vs_strtol', 'strtoll': 'vs_strtol', 'strtoul': 'vs_strtol', '__errno_location': {'expr': '(&vs_errno)'},
     'ctor:std::string/2': 'vs_astr_ctor_ptr_n', 'ctor:std::string/1': 'vs_astr_ctor_cstr', 'ctor:std::string/0': {'expr': 'vs_astr_ctor_empty()'},
     'operator=|std::string,std::string': 'vs_astr_assign', 'move': {'expr': '($0)'},
     'operator=|std::optional<std::string>,std::string': 'vs_opt_astr_assign',
@@ -71,7 +75,7 @@ STUBS.update({
     'ctor:std::optional<Pistache::Http::FullDate>/0': {'expr': '((struct vs_opt_date){0})'},
 })
 THROWING = ['vs_astr_ctor_ptr_n']
-ALWAYS_REPLACE = _s.ALWAYS_REPLACE
+ALWAYS_REPLACE = _s.ALWAYS_REPLACE + ['vs_strtol']
 OPAQUE = ['Pistache::Http::FullDate']
 RECORDS = _s.RECORDS + ['Pistache::RawStreamBuf<char>', 'Pistache::Http::Cookie', 'Pistache::Http::CookieJar']
 EXCEPTIONS = {'std::runtime_error': 'VS_EXC_RUNTIME_ERROR', 'std::invalid_argument': 'VS_EXC_INVALID_ARGUMENT'}
@@ -117,9 +121,9 @@ FUNCTIONS = list(_s.FUNCTIONS) + [
         ensures vs_exc == 0 ==> POS(cursor) >= OLD(POS(cursor)) + 1
         ensures vs_exc == 0 ==> (POS(cursor) == LEN(cursor) || BYTE(cursor, POS(cursor)) == ';')"""},
     {'q': AM, 'sig': 'std::optional<int> Pistache::Http::Cookie::*', 'c': 'AttributeMatcher_int_match',
-     'ghost': [('AttributeMatcher_int_match__strntol', 'before', 'g_v = 0; g_big = 0; g_nondigit = 0;')], 'contract': """
+     'ghost': [('AttributeMatcher_int_match__strntol', 'before', 'g_v = 0; g_big = 0; g_nondigit = 0;', 'optional')], 'contract': """
         requires CUR_PRE(cursor) && FRESH(obj, sizeof(*obj)) && attr == offsetof(struct Pistache_Http_Cookie, maxAge) && vs_exc == 0
-        assigns POS(cursor), obj->maxAge, vs_exc, g_hit_end, g_v, g_big, g_nondigit
+        assigns POS(cursor), obj->maxAge, vs_exc, g_hit_end, g_v, g_big, g_nondigit, vs_errno
         ensures COOKIE_EXC_OK && OLD(POS(cursor)) <= POS(cursor) && POS(cursor) <= LEN(cursor)
         ensures vs_exc == 0 ==> POS(cursor) >= OLD(POS(cursor)) + 1
         # Max-Age: digits only, no overflow, never negative; the number stored is the number written
